@@ -206,13 +206,13 @@ pub fn main(run_once: RunOnce) -> i32 {
 
 fn default_runs(property: &str, tier: oracle::Tier) -> u64 {
     match (property, tier) {
-        ("C06", oracle::Tier::Quick) => 10_000,
+        ("C06", oracle::Tier::Quick) => 9_000,
         ("C06", oracle::Tier::Thorough) => 60_000,
         ("C07", oracle::Tier::Quick) => 30_000,
         ("C07", oracle::Tier::Thorough) => 1_000_000,
-        ("C08", oracle::Tier::Quick) => 20_000,
+        ("C08", oracle::Tier::Quick) => 16_000,
         ("C08", oracle::Tier::Thorough) => 400_000,
-        ("C17", oracle::Tier::Quick) => 10_000,
+        ("C17", oracle::Tier::Quick) => 9_000,
         ("C17", oracle::Tier::Thorough) => 150_000,
         _ => 1000,
     }
